@@ -8,6 +8,8 @@ import CookModel.Lemmas.TableFacts
 import CookModel.Lemmas.CoverAudit
 import CookModel.Lemmas.FragInput
 import CookModel.Lemmas.RecipeText
+import CookModel.Lemmas.RecipeKeepComp
+import CookModel.Lemmas.RecipeSoft
 /-
   C05  No recipe content is silently dropped.
 
@@ -706,5 +708,152 @@ example : ((parseRecipe (α := Rat) rtToyEnv "Mix @salt{1} well\n\n> note".toLis
       .text "note".toList]⟩] := by decide +kernel
 example : ContentHas "Mix ".toList (.step ⟨[.text "Mix ".toList, .ingredient 0, .text " well".toList], 1⟩) := by
   simp [ContentHas]
+
+-- ===== w6c05recipe =====
+/-! ## through the analysis (wave 6): components, section names, `>>` metadata
+
+    Stated, like the wave-5 theorems, for a run of `parse` that returns a recipe `c` (no parse error) and a
+    position in the event stream (`pre ++ ev :: post`); `collectorAfter env input pre {}` is the collector at
+    the moment `ev` is analysed.  Still open (see notes/audit-C05.md): INLINE_QUANTITIES (the split of a step
+    text at the inline quantities) and the soft-line-break invariant. -/
+
+/-- **Every component event reaches its table.**  Let `parse` return a recipe `c` and let the event stream be
+    `pre ++ ev :: post` with `ev` an ingredient, cookware or timer event analysed while the define mode is not
+    `text` (in define mode `text` the source text of the component is appended to the text block instead, with
+    the warning `component-in-text-mode`).  Then the table of `c` has, at the index the event was given (the
+    size of the table at that moment), an entry that carries
+    * ingredient (`IngrKeeps`): `text_trimmed` of the name — when the trimmed name starts with `./`, `../`,
+      `.\` or `..\`, `parse_reference` splits it: the entry's `reference` is that split and its `name` the last
+      path component (`C05_parse_reference_keeps_path` says where every piece of the path goes) —,
+      `text_trimmed` of the alias and of the note, the unit text (`text_trimmed`) and the value of the quantity;
+    * cookware (`CwKeeps`): name, alias, note (each `text_trimmed`) and the value of the quantity;
+    * timer (`TimerKeeps`): name, unit text and value.
+    Whether the entry is a definition or a resolved reference does not matter: a reference is a table entry of
+    its own whose `relation` points to the definition; every later event changes at most the `relation` of an
+    entry (the back-link `referenced_from`).  Not covered: the modifiers (interpreted, and merged with the
+    definition's for a reference). -/
+theorem C05_recipe_keeps_components {α : Type} [Arith α] (env : Env) (input : Str) (c : Col α)
+    (hout : (parseRecipe (α := α) env input).output = some c) (pre post : List (Ev α)) (ev : Ev α)
+    (hsplit : (pullEvents (α := α) env.cs env.ext input).1.toList = pre ++ ev :: post)
+    (hm : (collectorAfter env input pre ({} : Col α)).defineMode ≠ .text) :
+    (∀ li, ev = .ingredient li →
+      ∃ x, c.ingredients[(collectorAfter env input pre ({} : Col α)).ingredients.size]? = some x ∧
+        IngrKeeps env li.val x) ∧
+    (∀ lc, ev = .cookware lc →
+      ∃ x, c.cookware[(collectorAfter env input pre ({} : Col α)).cookware.size]? = some x ∧
+        CwKeeps env lc.val x) ∧
+    (∀ lt, ev = .timer lt →
+      ∃ x, c.timers[(collectorAfter env input pre ({} : Col α)).timers.size]? = some x ∧
+        TimerKeeps env lt.val x) := by
+  refine ⟨fun li he => ?_, fun lc he => ?_, fun lt he => ?_⟩ <;> subst he
+  · exact rkc_parse_ingredient env input c hout pre post li hsplit hm
+  · exact rkc_parse_cookware env input c hout pre post lc hsplit hm
+  · exact rkc_parse_timer env input c hout pre post lt hsplit hm
+
+/-- **What `parse_reference` keeps of a path-like ingredient name**: every backslash is read as `/`, the path
+    is split at `/`; the first piece is `.` or `..` (no letter or digit) and is left out, the last piece is
+    the entry's name, the pieces between are `reference.components`, in order.  So `./a/b` and `../a/b` give
+    the same entry: which of `.` / `..` was written is not kept (no diagnostic; no letter or digit is lost). -/
+theorem C05_parse_reference_keeps_path (name : Str) (r : RecipeReference) (h : parseReference name = some r) :
+    ∃ first, splitOnChar '/' (name.map (fun c => if c = '\\' then '/' else c)) =
+        first :: (r.components ++ [r.name]) ∧ (first = ['.'] ∨ first = ['.', '.']) :=
+  rkc_parseReference_path name r h
+
+/-- **The section list holds the name of every `Section` event, in order.**  When `parse` returns a recipe,
+    the names of its named sections are exactly `text_trimmed` of the names of the `Section` events that have
+    a name, in stream order (a `Section` event without a name opens a nameless section, which is dropped when
+    it stays empty: nothing to lose). -/
+theorem C05_recipe_keeps_section_names {α : Type} [Arith α] (env : Env) (input : Str) (c : Col α)
+    (hout : (parseRecipe (α := α) env input).output = some c) :
+    secNames c.sections = (pullEvents (α := α) env.cs env.ext input).1.toList.filterMap (Ev.secName env) :=
+  rk_parse_sections env input c hout
+
+/-- **The metadata map holds the LAST value written for a key.**  Let `parse` return a recipe `c` and let the
+    stream be `pre ++ Metadata(k, v) :: post` where the trimmed key is not read as a config key
+    (`rkConfigKey`: MODES on and the key has the form `[…]` — such entries are interpreted, `[mode]` /
+    `[duplicate]`, or stored only for an unknown key in a file without front matter) and no later `>>` entry
+    has the same trimmed key.  Then the map of `c` holds the outer-trimmed value of `v` for that key.
+    An EARLIER entry of the same key is REPLACED: its value is not in the recipe.  The only diagnostic is the
+    deprecation notice `meta-deprecated` that every `>>` entry gets (its labels list the span of every `>>`
+    entry, the replaced one included), none says "replaced".  Reading of "silently": the property speaks of
+    the EVENT stream, where both entries are events with their spans, so C05 as worded holds; at recipe level
+    the replacement is what an insertion-ordered map does (`IndexMap::insert`), it is deliberate and
+    documented here, not counted as a drop. -/
+theorem C05_recipe_keeps_last_metadata {α : Type} [Arith α] (env : Env) (input : Str) (c : Col α)
+    (hout : (parseRecipe (α := α) env input).output = some c) (pre post : List (Ev α)) (k v : Text)
+    (hsplit : (pullEvents (α := α) env.cs env.ext input).1.toList = pre ++ Ev.metadata k v :: post)
+    (hnc : rkConfigKey env (k.trimmed env.cs) = false)
+    (hlast : ∀ k' v', Ev.metadata k' v' ∈ post → k'.trimmed env.cs ≠ k.trimmed env.cs) :
+    metaLookup c.metaMap (k.trimmed env.cs) = some (v.outerTrimmed env.cs) :=
+  rk_parse_meta_last env input c hout pre post k v hsplit hnc hlast
+
+/-- … hence the key of EVERY `>>` entry that is not a config key is in the map of the recipe, with the value
+    of a `>>` entry of that key (the last one). -/
+theorem C05_recipe_keeps_metadata_keys {α : Type} [Arith α] (env : Env) (input : Str) (c : Col α)
+    (hout : (parseRecipe (α := α) env input).output = some c) (k v : Text)
+    (hmem : Ev.metadata k v ∈ (pullEvents (α := α) env.cs env.ext input).1.toList)
+    (hnc : rkConfigKey env (k.trimmed env.cs) = false) :
+    ∃ k' v', Ev.metadata k' v' ∈ (pullEvents (α := α) env.cs env.ext input).1.toList ∧
+      k'.trimmed env.cs = k.trimmed env.cs ∧
+      metaLookup c.metaMap (k.trimmed env.cs) = some (v'.outerTrimmed env.cs) :=
+  rk_parse_meta_key env input c hout k v hmem hnc
+
+/-! non-vacuity: `>> k: a⏎>> k: b⏎= Sauce⏎Add @./sauces/pesto{2%g} to #pan{} ~{5%min}` with the toy
+    environment.  Events: two metadata entries, a section, `Start`, text, ingredient (index 5), text,
+    cookware, text, timer, `End`.  The define mode when the ingredient is analysed is `all`; the recipe has
+    the ingredient `pesto` with the reference `sauces/` and the unit `g`, the cookware `pan`, a timer with the
+    unit `min`, the section name `Sauce`, and the map holds `b` (the LAST value) for `k`. -/
+example : (match (pullEvents (α := Rat) rtToyEnv.cs rtToyEnv.ext
+      ">> k: a\n>> k: b\n= Sauce\nAdd @./sauces/pesto{2%g} to #pan{} ~{5%min}".toList).1.toList[5]? with
+    | some (Ev.ingredient _) => true
+    | _ => false) = true := by decide +kernel
+example : (collectorAfter rtToyEnv ">> k: a\n>> k: b\n= Sauce\nAdd @./sauces/pesto{2%g} to #pan{} ~{5%min}".toList
+    ((pullEvents (α := Rat) rtToyEnv.cs rtToyEnv.ext
+      ">> k: a\n>> k: b\n= Sauce\nAdd @./sauces/pesto{2%g} to #pan{} ~{5%min}".toList).1.toList.take 5)
+    ({} : Col Rat)).defineMode = .all := by decide +kernel
+example : ((parseRecipe (α := Rat) rtToyEnv
+      ">> k: a\n>> k: b\n= Sauce\nAdd @./sauces/pesto{2%g} to #pan{} ~{5%min}".toList).output.map
+    (fun c => c.ingredients.toList.map (fun x => (x.name, x.reference)))) =
+    some ([("pesto".toList, some ⟨"pesto".toList, ["sauces".toList]⟩)]) := by decide +kernel
+example : ((parseRecipe (α := Rat) rtToyEnv
+      ">> k: a\n>> k: b\n= Sauce\nAdd @./sauces/pesto{2%g} to #pan{} ~{5%min}".toList).output.map
+    (fun c => c.ingredients.toList.map (fun x => x.quantity.map (·.unit)))) =
+    some ([some (some "g".toList)]) := by decide +kernel
+example : ((parseRecipe (α := Rat) rtToyEnv
+      ">> k: a\n>> k: b\n= Sauce\nAdd @./sauces/pesto{2%g} to #pan{} ~{5%min}".toList).output.map
+    (fun c => c.cookware.toList.map (·.name))) =
+    some (["pan".toList]) := by decide +kernel
+example : ((parseRecipe (α := Rat) rtToyEnv
+      ">> k: a\n>> k: b\n= Sauce\nAdd @./sauces/pesto{2%g} to #pan{} ~{5%min}".toList).output.map
+    (fun c => c.timers.toList.map (fun x => x.quantity.map (·.unit)))) =
+    some ([some (some "min".toList)]) := by decide +kernel
+example : ((parseRecipe (α := Rat) rtToyEnv
+      ">> k: a\n>> k: b\n= Sauce\nAdd @./sauces/pesto{2%g} to #pan{} ~{5%min}".toList).output.map
+    (fun c => secNames c.sections)) =
+    some (["Sauce".toList]) := by decide +kernel
+example : ((parseRecipe (α := Rat) rtToyEnv
+      ">> k: a\n>> k: b\n= Sauce\nAdd @./sauces/pesto{2%g} to #pan{} ~{5%min}".toList).output.map
+    (fun c => metaLookup c.metaMap "k".toList)) =
+    some (some "b".toList) := by decide +kernel
+example : rkConfigKey rtToyEnv "k".toList = false := by decide
+example : parseReference "../sauces/pesto".toList = some ⟨"pesto".toList, ["sauces".toList]⟩ := by decide
+
+/-- **A soft fragment holds only the characters of a line break (partial).**  `BlockParser::text`
+    (`buildText`) run over ANY tokens of the lexer (`ts ⊆ lexFrom cs o s`, any offsets, any order) marks as soft
+    only fragments whose text is `LF` or `CR LF`: the soft fragment is built in the `Newline` arm only, from
+    the text of that newline token, and the lexer spells a newline token `\n` or `\r\n`.  So a soft fragment
+    contains no letter or digit, and rendering it as one space (`Text::text`) loses none.
+    Partial: stated for `buildText`, the one function that builds soft fragments; NOT lifted to "every text
+    of every event of `PullParser`" (that every event text is `buildText` of lexed tokens needs a sweep over
+    the block parsers with the token spelling carried along; `RunIn` of `Lemmas/Spans.lean` does not carry
+    it), so the hypothesis `f.soft = false` of `C05_recipe_keeps_content_partial` is still there. -/
+theorem C05_soft_fragment_is_line_break_partial (cs : CharSpec) (o : Nat) (s : List Char) (off : Nat)
+    (ts : List Tok) (hsub : ∀ x ∈ ts, x ∈ lexFrom cs o s) :
+    ∀ f ∈ (buildText off ts).frags, f.soft = true → f.text = ['\n'] ∨ f.text = ['\r', '\n'] :=
+  rks_buildText_lexed cs o s off ts hsub
+
+/-! non-vacuity: the tokens of `a⏎b` give the fragments `a`, the soft line break, `b` -/
+example : (buildText 0 (lexFrom toyCharSpec 0 "a\r\nb".toList)).frags.map (fun f => (f.text, f.soft)) =
+    [(['a'], false), (['\r', '\n'], true), (['b'], false)] := by decide +kernel
 
 end Cook
